@@ -548,6 +548,9 @@ static Sig real_stream(vh::Rng& rng, size_t n, bool cplx) {
     // ... and stretches of constant magnitude (square wave, DC), where a smoothed gain stops moving
     double level = 1;
     int shape = 0, half = 1;
+    // long streams: every other one contains a pause of 150..1500 samples of digital silence
+    const size_t quiet_len = (n >= 600 && rng.coin()) ? (size_t)rng.range(150, (long)std::min<size_t>(n / 2, 1500)) : 0;
+    const size_t quiet_at = quiet_len ? (size_t)rng.range(1, (long)(n - quiet_len - 1)) : 0;
     for (size_t i = 0; i < n; ++i) {
         if (i == 0 || rng.range(0, 40) == 0) {
             level = std::pow(10.0, -3 + 3.3 * rng.unif());
@@ -556,6 +559,13 @@ static Sig real_stream(vh::Rng& rng, size_t n, bool cplx) {
             }
             const int q = (int)rng.range(0, 9);
             shape = q == 0 ? 1 : q == 1 ? 2 : 0, half = (int)rng.range(1, 12);
+        }
+        if (quiet_len > 0 && i >= quiet_at && i < quiet_at + quiet_len) {   // one long pause (adaptive filters starve, gains wind up)
+            s.re.push_back(0.0);
+            if (cplx) {
+                s.im.push_back(0.0);
+            }
+            continue;
         }
         const double sq = ((i / half) % 2) ? -level : level;
         s.re.push_back(shape == 1 ? sq : shape == 2 ? level : level * rng.gauss());
